@@ -32,7 +32,7 @@ pub fn run(what: &str) {
     match what {
         "dict-beyond" => {
             for seed in 0..6u32 {
-                let ds = DictSpec { kind: (seed % 2) as u8, seed, size: 2000, id: 77, level: 3, vocab: 20, rep_patch: None };
+                let ds = DictSpec { kind: (seed % 2) as u8, seed, size: 2000, id: 77, level: 3, vocab: 20, rep_patch: None, pad_kib: 0 };
                 let b = ds.build().unwrap();
                 let m = frame::parse_dict(&b.bytes).unwrap();
                 println!("dict {} bytes, model entropy_len {} content {}", b.bytes.len(), m.entropy_len, m.content.len());
